@@ -395,7 +395,7 @@ def cut_function(src, name):
         start = code[b][0] + 1 if b >= 0 else 0
         # skip whitespace, comments and preprocessor lines between
         while True:
-            m2 = re.compile(r"\s+|/\*.*?\*/|//[^\n]*|#[^\n]*(?:\\\n[^\n]*)*", re.S).match(src, start)
+            m2 = re.compile(r"\s+|/\*.*?\*/|//[^\n]*|#(?:[^\n\\]|\\\n|\\[^\n])*", re.S).match(src, start)       # a directive with its continuation lines
             if not m2 or m2.end() > p:
                 break
             start = m2.end()
